@@ -240,7 +240,7 @@ Proof. induction xs as [|y xs IH]; intros [|s a] d Hnd Hl; simpl in *; try discr
 (* the spin-orbital value of the term with its targets on the requested spins is the
    sum over the enumerated assignments of the spin-restricted sums *)
 Theorem integrate_value_sp :
-  exists R, integrate_objs true tm objs tidx = Ok R /\
+  exists R, integrate_objs tm objs tidx = Ok R /\
     eval_term S T tg r t = ksum R (fun m => sum_sp C (a_of m) r (fun r' => term_val S T r' t)).
 Proof.
   destruct (rep_final tm objs tidx Hwf Htidx_nd closed) as [R [HR [Ss Cc U]]].
@@ -354,7 +354,7 @@ Proof. intros Hx. destruct (Hwfidx x Hx) as [H1 H2]. unfold lab.
   destruct (sspin m x); unfold unspin, spin_idx; destruct x; simpl in *; subst; reflexivity. Qed.
 
 Theorem integrate_value :
-  exists R, integrate_objs true tm objs tidx = Ok R /\
+  exists R, integrate_objs tm objs tidx = Ok R /\
     eval_term S T tg r t =
     ksum R (fun m => eval_term S T (map (lab m) tg) (fun y => r (unspin y)) (ren_term (lab m) t)).
 Proof.
@@ -431,7 +431,7 @@ Proof. intros Hl Hx Hy. unfold dsp. destruct (Hl x) as [Ax Bx]. destruct (Hl y) 
     reflexivity. Qed.
 
 Lemma expand_eri_fac_value rho f alts : lab_ok rho -> eri_ok f ->
-  expand_eri_fac true f = Ok alts -> fac_val S T rho f = alts_val rho alts.
+  expand_eri_fac f = Ok alts -> fac_val S T rho f = alts_val rho alts.
 Proof. intros Hl Hok. unfold expand_eri_fac, alts_val.
   assert (Hone : fac_val S T rho f = ksum [(1%Q, [f])] (fun cf => ofQ S (fst cf) * mono_val S T rho (snd cf))).
   { simpl. unfold mono_val; simpl. rewrite (ofQ_1 S). ring. }
@@ -481,7 +481,7 @@ Lemma expand_eri_facs_value rho : lab_ok rho -> forall fs alts, (forall f, In f 
   expand_eri_facs fs = Ok alts -> mono_val S T rho fs = alts_val rho alts.
 Proof. intros Hl. induction fs as [|f fs IH]; intros alts Hok H; simpl in H.
   - inversion H; subst. unfold alts_val, mono_val; simpl. rewrite (ofQ_1 S). ring.
-  - destruct (expand_eri_fac true f) as [a1|c] eqn:E1; simpl in H; [|discriminate].
+  - destruct (expand_eri_fac f) as [a1|c] eqn:E1; simpl in H; [|discriminate].
     destruct (expand_eri_facs fs) as [a2|c] eqn:E2; simpl in H; [|discriminate].
     inversion H; subst; clear H.
     change (mono_val S T rho (f :: fs)) with (fac_val S T rho f * mono_val S T rho fs).
